@@ -258,6 +258,19 @@ func structField(v reflect.Value, name string) reflect.Value {
 	return field
 }
 
+// safeCall calls fn with args. A panic during the call - a method promoted
+// from an embedded pointer that is nil, a function of the caller that panics -
+// is returned as an error instead of unwinding through the template engine
+// (text/template does the same).
+func safeCall(fn reflect.Value, args []reflect.Value) (out []reflect.Value, err error) {
+	defer func() {
+		if r := recover(); r != nil {
+			err = fmt.Errorf("calling the function panicked: %v", r)
+		}
+	}()
+	return fn.Call(args), nil
+}
+
 // argumentFits reports whether the evaluated argument can be passed for a
 // parameter of type fnArg: it has exactly that type, or the parameter is an
 // interface the argument's type implements (a nil fits every interface).
@@ -535,7 +548,10 @@ func (vr *variableResolver) resolve(ctx *ExecutionContext) (*Value, error) {
 			}
 
 			// Call it and get first return parameter back
-			values := current.Call(parameters)
+			values, callErr := safeCall(current, parameters)
+			if callErr != nil {
+				return nil, callErr
+			}
 			rv := values[0]
 			if t.NumOut() == 2 {
 				e := values[1].Interface()
